@@ -3,7 +3,7 @@ from __future__ import annotations
 
 from .. import refcodec as rc
 from ..harness import Determinism
-from ..refdevice import RefAC, decode_setpoint
+from ..refdevice import RefAC, cap_record, decode_setpoint
 from ..report import Stats
 from ..util import Rig
 
@@ -13,7 +13,8 @@ RULE = ("bounded-exhaustive enumeration (E1) of raw 0xC0 payloads reported by th
         "256 temperature bytes x 10 tenths digits x {indoor,outdoor} x {C,F}; 32 alternate x 32 primary setpoint codes; all 256 "
         "values of each of bytes 1,2,3,7,8,9,10,13,14,19,21; payload lengths 16..40; trailing check CRC-8 and additive. Oracle: "
         "vendor layout (reference/*.lua) + the temperature rules of the property. non-trivial = every case")
-ASSUMPTIONS = ["for byte values outside the layout's defined codes (mode 0/7, undefined swing nibbles, unlisted fan enum) only "
+ASSUMPTIONS = ["for a client that knows the unit advertises preset fan speeds only, non-preset reported speeds carry no expectation",
+               "for byte values outside the layout's defined codes (mode 0/7, undefined swing nibbles, unlisted fan enum) only "
                "'no exception' and the defined sibling fields are asserted", "turbo is the OR of the two vendor turbo bits"]
 
 BASE = bytes.fromhex("c00145660000003c0010045c6800000000000000000000018426")[:25]
@@ -42,13 +43,30 @@ def shards(tier):
     return out
 
 
-def execute(payload: bytes, check: str = "crc"):
-    ref = RefAC(check=check)
+CAPS = {
+    # a unit that advertises none of the optional features / one that advertises them all (custom fan speed included)
+    "min": [[cap_record(0x0212, 0), cap_record(0x0214, 3), cap_record(0x0215, 0), cap_record(0x0210, 0), cap_record(0x0224, 0),
+             cap_record(0x0213, 0), cap_record(0x0217, 0), cap_record(0x021A, 0), cap_record(0x0219, 0), cap_record(0x0216, 0)]],
+    "max": [[cap_record(0x0212, 1), cap_record(0x0214, 1), cap_record(0x0215, 1), cap_record(0x0210, 1), cap_record(0x0224, 1),
+             cap_record(0x0213, 1), cap_record(0x0217, 1), cap_record(0x021A, 1), cap_record(0x0219, 1), cap_record(0x0216, 1),
+             cap_record(0x0225, 0x22, 0x3C, 0x22, 0x3C, 0x22, 0x3C, 1), cap_record(0x021F, 3), cap_record(0x0222, 0), cap_record(0x0043, 1)]],
+}
+
+
+def execute(payload: bytes, check: str = "crc", caps: str = None):
+    ref = RefAC(check=check, **({"cap_pages": CAPS[caps]} if caps else {}))
     ref.report_body = bytes(payload)
     rig = Rig(2, ac=ref)
     ac = rig.client()
+
+    async def drive():
+        if caps:
+            # a client that has queried the unit's capabilities first: what a state response REPORTS does not depend on them
+            await ac.get_capabilities()
+        await ac.refresh()
+
     try:
-        out = rig.run(ac.refresh())
+        out = rig.run(drive())
         return out, ac
     finally:
         rig.close()
@@ -152,6 +170,9 @@ def judge(st: Stats, case, p, out, ac, temps=None):
     else:
         bad = []
         for k, v in expected(p).items():
+            if k == "fan_speed" and case.get("caps") == "min" and v not in (20, 40, 60, 80, 102):
+                # a unit that advertises preset speeds only cannot (consistently) report a speed in between: no expectation
+                continue
             got = getattr(ac, k)
             if isinstance(got, int) and not isinstance(got, bool):
                 got = int(got)
@@ -231,6 +252,12 @@ def run_shard(shard, tier) -> Stats:
                     p[2] = 0x91
                 p[a] = v
                 one({"kind": f"byte{a}", "value": v, "variant": variant}, p, "crc" if v % 2 else "sum")
+                if variant == 0:
+                    for caps in ("min", "max"):
+                        case = {"kind": f"byte{a} caps={caps}", "value": v, "variant": variant, "caps": caps}
+                        out, ac = execute(p, "crc", caps)
+                        prob = judge(st, case, p, out, ac)
+                        st.ev((kind, a, v, caps), "match" if not prob else "differ", True)
     elif kind == "history":
         # the same report twice with local edits in between, and two different reports in a row
         for v in range(0, 256, 5):
